@@ -14,7 +14,7 @@
              'decreases': 'g_strcpy_L - C08_IDX(cp, dest)'},
             {'file': 'compat/libc/string/strcpy.c', 'func': 'strcpy', 'ghost': 'g_strcpy_len = C08_IDX(cp, dest) - 1;', 'at': 'before', 'anchor': 'return dest;'}],
  'ghost_calls': ['C08_IDX'],
- 'params': {'C08_FIXOFF': [0, 3], 'SAME': [0, 1, 2]},
+ 'params': {'C08_FIXOFF': [0], 'SAME': [0, 1, 2]}, 'params_thorough': {'C08_FIXOFF': [0, 3], 'SAME': [0, 1, 2]},
  'witness': {'unwind': 8},
 } @*/
 #include "c08_harness.h"
